@@ -35,7 +35,7 @@ func init() {
 	}})
 }
 
-var c20States = []string{"parity-gap", "intact", "repairable", "mangled", "noparity-mangled", "unrepairable", "noparity-damaged", "noparity-intact", "damaged-index", "missing-index", "usage", "create"}
+var c20States = []string{"data-is-directory", "parity-gap", "intact", "repairable", "mangled", "noparity-mangled", "unrepairable", "noparity-damaged", "noparity-intact", "damaged-index", "missing-index", "usage", "create"}
 
 func (c *c20) Cases(tier string, seed int64) []core.Case {
 	var cs []core.Case
@@ -284,6 +284,14 @@ func (c *c20) Run(cs core.Case) core.Result {
 	vw, rw := "verify("+verifySpell+")", "repair("+repairSpell+")"
 
 	switch p.State {
+	case "data-is-directory":
+		// a directory sits where a protected file should be: it is not a file
+		// that does not exist (damage), it is a read failure
+		k := len(w.dataRel) - 1
+		os.Remove(dataPath(k))
+		os.MkdirAll(filepath.Join(dataPath(k), "inner"), 0755)
+		expect(vw, verify(), "other-failure")
+		expect(rw, repair(), "other-failure")
 	case "intact":
 		expect(vw, verify(), "0")
 		before := scen.Snapshot(top)
@@ -497,6 +505,8 @@ func (c *c20) Run(cs core.Case) core.Result {
 		}
 		// failures
 		expect("create-missing-input", runPar(cwd, "c", spell("m"+ext), spell("does-not-exist.bin")), "other-failure")
+		expect("create-one-input-missing-among-others", runPar(cwd, "c", spell("m2"+ext), spell(w.dataRel[0]), spell("does-not-exist.bin"), spell(w.dataRel[len(w.dataRel)-1])), "other-failure")
+		expect("create-one-input-below-a-file", runPar(cwd, "c", spell("m3"+ext), spell(w.dataRel[0]), spell(w.dataRel[0]+"/not-a-dir.bin")), "other-failure")
 		if p.Fmt == "par2" {
 			expect("create-invalid-slice-size", runPar(cwd, "c", "-s", "5", spell("s"+ext), spell(w.dataRel[0])), "other-failure")
 		}
